@@ -170,9 +170,27 @@ TChk ==
 TObsQueue ==
     /\ IsEvent("ObsQueue") /\ Len(queue[Ev.h]) = Ev.n
     /\ UNCHANGED <<vars, chkOn, regP, canP, sc>>
+\* The observation of messageHandlers. When a cancelled handler leaves the list
+\* (RemoveHandler / the exit of the local goroutine) matters only for the order of
+\* the list (swap-with-last against later appends) and for this observation, so
+\* the departures are taken either just before a registration (see Silent) or
+\* here, in any order that produces the observed list.
+Leaving(h) ==
+    /\ ctxDone[h] /\ ~removed[h] /\ pc[h] # "none"
+    /\ (Lifecycle = "inline" => pc[h] = "select")
+RECURSIVE RemoveAll(_, _)
+RemoveAll(seq, ord) == IF ord = <<>> THEN seq ELSE RemoveAll(SwapRemove(seq, Head(ord)), Tail(ord))
+Orders(S) == { f \in [1..Cardinality(S) -> S] : \A a, b \in 1..Cardinality(S) : a # b => f[a] # f[b] }
 TObsHandlers ==
-    /\ IsEvent("ObsHandlers") /\ handlers = Ev.list
-    /\ UNCHANGED <<vars, chkOn, regP, canP, sc>>
+    /\ IsEvent("ObsHandlers")
+    /\ LET obs == Ev.list
+           gone == { h \in Range(handlers) : \A k \in DOMAIN obs : obs[k] # h }
+       IN /\ \A h \in gone : Leaving(h)
+          /\ \E ord \in Orders(gone) : RemoveAll(handlers, ord) = obs
+          /\ handlers' = obs
+          /\ removed' = [h \in Handlers |-> removed[h] \/ h \in gone]
+          /\ pc' = [h \in Handlers |-> IF h \in gone /\ Lifecycle = "inline" THEN "exited" ELSE pc[h]]
+    /\ UNCHANGED <<counter, budget, dl, ctxDone, queue, cur, seen, ninv, stale, acc, chkOn, regP, canP, sc>>
 
 ---- \* silent steps
 \* asynchronous publications (retransmission goroutines) use only what a Tick granted:
@@ -189,7 +207,8 @@ Silent ==
             \/ \E p \in sc : SAlloc(p) \/ SStart(p)
             \/ /\ UNCHANGED <<regP, canP, sc>>
                /\ \/ SAsync
-                  \/ DoTrySend \/ DoRemoveHandler \/ DoExitOnDone
+                  \/ DoTrySend
+                  \/ ((\E h \in Handlers : regP[h] = "called") /\ (DoRemoveHandler \/ DoExitOnDone))
                   \/ (~chkOn /\ (DoDequeue \/ DoCheckCtx))
 
 Pinned == \/ TReset
